@@ -416,6 +416,88 @@ pub fn run(run: &mut Run) {
     });
     st.merge(Stats::merge_all(accs));
 
+    // two binders at a time renamed to a pair of names that are different strings but alike under a weaker notion of
+    // equality: equal under one of twelve common 32-bit string hashes, equal up to case, anagrams, equal in their
+    // first 8 .. 256 characters, equal up to an underscore or a leading zero. Names are compared as whole strings.
+    {
+        let mut pairs: Vec<(String, String, &str)> = vec![
+            ("idx8968".into(), "n26486".into(), "fnv1a32"),
+            ("idx21378".into(), "acc36620".into(), "fnv1_32"),
+            ("mmozp".into(), "nfzsxz".into(), "djb2"),
+            ("total67649".into(), "idx104800".into(), "djb2_xor"),
+            ("iuitplkk".into(), "a_gu_".into(), "sdbm"),
+            ("i40".into(), "row20409".into(), "java31"),
+            ("lotoc".into(), "vbjzin".into(), "crc32"),
+            ("idx12".into(), "cnt30".into(), "adler32"),
+            ("node3520".into(), "node3575".into(), "one_at_a_time"),
+            ("tmp0".into(), "x100".into(), "elf"),
+            ("row882".into(), "len5383".into(), "murmur3_32"),
+            ("tmp21587".into(), "node21830".into(), "fnv1a64_low32"),
+            ("value".into(), "vaLue".into(), "case"),
+            ("tops".into(), "spot".into(), "anagram"),
+            ("ab_c".into(), "abc_".into(), "underscore-position"),
+            ("_v".into(), "v_".into(), "underscore-side"),
+            ("x1".into(), "x01".into(), "leading-zero"),
+            ("v10".into(), "v1O".into(), "digit-letter"),
+        ];
+        for n in [8usize, 16, 32, 64, 128, 256, 1024] {
+            let stem: String = (0..n).map(|i| (b'a' + ((i * 3) % 26) as u8) as char).collect();
+            pairs.push((format!("{}a", stem), format!("{}b", stem), "long-common-prefix"));
+            pairs.push((format!("a{}", stem), format!("b{}", stem), "long-common-suffix"));
+        }
+        let mut cases = Vec::new();
+        for (ti, (_, p)) in temps.iter().enumerate() {
+            let res = resolve(p);
+            let bs: Vec<usize> = renamable(&res).into_iter().take(5).collect();
+            for (x, b1) in bs.iter().enumerate() {
+                for b2 in bs.iter().skip(x + 1) {
+                    for pi in 0..pairs.len() {
+                        cases.push((ti, *b1, *b2, pi));
+                    }
+                }
+            }
+        }
+        let accs = crate::pool::par_items(&cases, 32, |_| Stats::new(), |acc, _, (ti, b1, b2, pi)| {
+            let (tname, base) = &temps[*ti];
+            let res = resolve(base);
+            let base_text = print_program(base).text;
+            let base_lua = match compile_src(&base_text) {
+                Outcome::Ok(b) => b,
+                _ => return,
+            };
+            let (n1, n2, why) = &pairs[*pi];
+            let mut names: Vec<Option<String>> = vec![None; res.binders.len()];
+            names[*b1] = Some(n1.clone());
+            names[*b2] = Some(n2.clone());
+            let q = rename(base, &res, &names);
+            let r2 = resolve(&q);
+            let text = print_program(&q).text;
+            acc.evaluations += 1;
+            acc.nontrivial(fnv(text.as_bytes()));
+            if r2.duplicate_params || r2.duplicate_globals || r2.uses != res.uses {
+                acc.count("look-alike-skipped:changes-the-binding-graph", 1);
+                return;
+            }
+            let mut files = serde_json::Map::new();
+            files.insert(MAIN.to_string(), json!(text));
+            let fail = match compile_src(&text) {
+                Outcome::Ok(bts) if bts == base_lua => None,
+                Outcome::Ok(_) => Some(("renaming-changes-lua", "renaming two binders to two different names that look alike changed the emitted Lua".to_string())),
+                other => Some(("renaming-rejected", other.short())),
+            };
+            match fail {
+                None => acc.outcome("look-alike-names:same-lua"),
+                Some((sig, detail)) => {
+                    acc.outcome(sig);
+                    acc.fail(Failure { sig: sig.to_string(), preds: vec![format!("template:{}", tname), format!("look-alike:{}", why)], detail: format!("template {} binders {} and {} -> two names alike under `{}` ({} / {})
+{}
+{}", tname, res.binders[*b1].0, res.binders[*b2].0, why, n1.chars().take(40).collect::<String>(), n2.chars().take(40).collect::<String>(), text.chars().take(6000).collect::<String>(), detail), case: json!({"engine": "c09", "files": files, "base": base_text}), size: text.len() });
+                }
+            }
+        });
+        st.merge(Stats::merge_all(accs));
+    }
+
     // the same across files: a function of an imported module under every name of the pool, called from main's start
     {
         let mut luas: Vec<(String, Result<(Vec<u8>, Vec<String>), String>)> = Vec::new();
@@ -545,7 +627,7 @@ pub fn run(run: &mut Run) {
         }
     }
     run.stats = st;
-    run.rule = "three templates covering globals, global functions, parameters, function / block / branch / elif / else / loop locals, closure parameters and locals, case bindings; every subset of 2..k renamable binders x every map of the subset into its own name pool (k^k maps: identity, swaps, maximal shadowing, collisions); plus a read of every binder planted at every statement position; distinct by program text; every case is non-trivial".into();
+    run.rule = "three templates covering globals, global functions, parameters, function / block / branch / elif / else / loop locals, closure parameters and locals, case bindings; every subset of 2..k renamable binders x every map of the subset into its own name pool (k^k maps: identity, swaps, maximal shadowing, collisions); plus a read of every binder planted at every statement position; distinct by program text; every case is non-trivial; plus, per template, every pair of its first five renamable binders renamed to each of 32 pairs of different names that are alike under a weaker equality (equal under one of twelve common 32-bit string hashes, equal up to case, anagrams, equal in their first or last 8 .. 1024 characters, differing in an underscore or a leading zero): same Lua".into();
     run.bounds = json!({"max_binders_renamed": maxk, "templates": temps.iter().map(|t| t.0).collect::<Vec<_>>(), "renaming_cases": cases.len(), "planted_use_cases": plant_cases.len()});
     run.assumptions = vec![
         "the scope model of scope.rs (innermost enclosing declaration; a non-function definition is visible after its initialiser, a function definition inside it; globals are visible in the whole file)".into(),
